@@ -1,5 +1,5 @@
-\* thorough: blocks of 50 numbers: 0.00 .. 250.49 contiguous, then the last 50 hundredths before every multiple of 25
-\* up to 9999.99, both signs, under every catalogue format
+\* thorough: blocks of 50 numbers: 0.00 .. 9.99 contiguous and the blocks around 100, 124.5, 500, 1000, 1234.5, 5000 and
+\* 9999.99, both signs, under every catalogue format
 CONSTANTS I = 4 F = 2 KMax = 4 Block = 50
 CONSTANTS Catalogue <- MCCatalogue Starts <- ThoroughStarts MCDev = {}
 SPECIFICATION Spec2
